@@ -443,6 +443,32 @@ func (w *World) extractBuiltins(f *Facts) {
 		n, ok := t.(*types.Named)
 		return ok && n.Obj().Name() == "Function" && n.Obj().Pkg() != nil && n.Obj().Pkg().Path() == modPath+"/exec"
 	}
+	// an overload table built by a factory of the package (`var nameDispatch = nameOverloads(kind)`)
+	allInstrs(init, func(i ssa.Instruction) {
+		st, ok := i.(*ssa.Store)
+		if !ok {
+			return
+		}
+		g, ok := st.Addr.(*ssa.Global)
+		if !ok {
+			return
+		}
+		call, ok := stripConv(st.Val).(*ssa.Call)
+		if !ok {
+			return
+		}
+		tbl, binds := overloadsFromFactory(call)
+		if len(tbl) == 0 {
+			return
+		}
+		overloads[g] = tbl
+		if f.BuiltinBind == nil {
+			f.BuiltinBind = map[string]map[*ssa.FreeVar]ssa.Value{}
+		}
+		for k := range tbl {
+			f.BuiltinBind[fmt.Sprintf("%s#%d", g.Name(), k)] = binds[k]
+		}
+	})
 	var builtinMap ssa.Value
 	allInstrs(init, func(i ssa.Instruction) {
 		mu, ok := i.(*ssa.MapUpdate)
